@@ -170,6 +170,11 @@ pub fn run(ctx: &Ctx) -> i32 {
             }
         }
     }
+    // regexes whose meaning depends on the case of their own text
+    for r in ["?^\\S+$", "?\\D", "?\\W", "?\\Bb", "?^[A-B]+$", "?\\x41", "?a\\S", "?^\\w\\W?$"] {
+        pats.push(r.to_string());
+        pats.push(format!("i{}", r));
+    }
     let mut s = Singles { pats: pats.clone(), parsed: vec![], want: vec![], got: vec![] };
     for p in &pats {
         let parsed = parse_pattern(p, false).expect("reference parses its own patterns");
